@@ -181,9 +181,11 @@ func normalise(res numscript.ExecutionResult, err error, out *Real) {
 		return
 	}
 	for _, p := range res.Postings {
-		amt := new(big.Int)
-		if p.Amount != nil {
-			amt.Set(p.Amount)
+		amt, ok := cleanCopy(p.Amount)
+		if !ok {
+			out.Panic = "a posting amount is not a well-formed big integer (its internal representation is corrupted)"
+			out.Postings = nil
+			return
 		}
 		out.Postings = append(out.Postings, Posting{p.Source, p.Destination, p.Asset, amt})
 	}
@@ -375,4 +377,23 @@ func Normalise(res numscript.ExecutionResult, err numscript.InterpreterError) Re
 		normalise(res, nil, &out)
 	}
 	return out
+}
+
+// cleanCopy copies a big integer produced by the code under test through its decimal
+// text, so that a value whose internal representation was corrupted (e.g. by in-place
+// arithmetic on shared storage) cannot make the harness's own arithmetic panic.
+func cleanCopy(x *big.Int) (out *big.Int, ok bool) {
+	defer func() {
+		if r := recover(); r != nil {
+			out, ok = nil, false
+		}
+	}()
+	if x == nil {
+		return new(big.Int), true
+	}
+	n, good := new(big.Int).SetString(x.String(), 10)
+	if !good {
+		return nil, false
+	}
+	return n, true
 }
